@@ -1682,8 +1682,10 @@ coap_oscore_decrypt_pdu(coap_session_t *session,
 error:
   coap_send_ack_lkd(session, pdu);
 error_no_ack:
-  if (association && association->is_observe == 0)
-    oscore_delete_association(session, association);
+  /*
+   * A response that cannot be verified is dropped (RFC8613 8.4); the
+   * association of its token stays for the genuine response.
+   */
   coap_delete_pdu(decrypt_pdu);
   coap_delete_pdu(plain_pdu);
   return NULL;
